@@ -922,6 +922,19 @@ Qed.
 (* histories: the model's observations pass the checker                                   *)
 (* ====================================================================================== *)
 
+(* the RPC layer answers every request with a GROUPTRIGGER update that is exactly the new connection set *)
+Lemma rpc_edit_ok k n b R e : BInv n b -> Rep b R ->
+  exists v tc, rpc_edit add_connection true k b e = (apply_edit add_connection k b e, Some v, tc) /\
+               report_ok n (rel_edit k n R e) v = true.
+Proof.
+  intros Hb HR. destruct (apply_edit_sync k n b R e Hb HR) as [Hb' HR'].
+  destruct e as [c|c| |st]; cbn [rpc_edit apply_edit rel_edit] in *.
+  - eexists _, _. split; [reflexivity|]. now apply report_ok_model.
+  - eexists _, _. split; [reflexivity|]. now apply report_ok_model.
+  - eexists _, _. split; [reflexivity|]. apply report_ok_model; [now apply stop_inv | apply stop_rep].
+  - eexists _, _. split; [reflexivity|]. now apply report_ok_model.
+Qed.
+
 Inductive Sync (cf : config) (m : mstate) (st : cst) : option Z -> Z -> Prop :=
 | SyncPre :
     BInv (cf_n cf) (m_b m) -> Rep (m_b m) (c_R st) -> c_F0 st = None ->
@@ -948,7 +961,8 @@ Lemma cycle_tail cf m st blk prims F0 len1 glen1 :
   exists recs,
     step cf m (OCycle blk prims)
     = (Ok {| m_b := m_b m;
-             m_sts := map2 trim (keeps_fixed cf (m_sts m)) (map2 append (m_sts m) (map (seg_of blk) (blk_chans blk))) |},
+             m_sts := map2 trim (keeps_fixed cf (m_sts m)) (map2 append (m_sts m) (map (seg_of blk) (blk_chans blk)));
+             m_view := m_view m; m_coup := m_coup m |},
        OSec recs) /\
     check_step cf st (OCycle blk prims) (OSec recs)
     = Some {| c_R := c_R st; c_G := map2 (fun g ch => g ++ fst ch) (c_G st) (blk_chans blk); c_F0 := Some F0 |}.
@@ -975,12 +989,14 @@ Proof.
   - (* a request *)
     destruct (sync_broker _ _ _ _ _ HS) as [Hb HR].
     destruct (apply_edit_sync (cf_kind cf) (cf_n cf) (m_b m) (c_R st) e Hb HR) as [Hb' HR'].
-    exists {| m_b := apply_edit add_connection (cf_kind cf) (m_b m) e; m_sts := m_sts m |}.
-    exists (ORep (report_pairs (apply_edit add_connection (cf_kind cf) (m_b m) e))
-                 (b_cnt (apply_edit add_connection (cf_kind cf) (m_b m) e))).
+    destruct (rpc_edit_ok (cf_kind cf) (cf_n cf) (m_b m) (c_R st) e Hb HR) as (v & tc & Erpc & Hv).
+    exists {| m_b := apply_edit add_connection (cf_kind cf) (m_b m) e; m_sts := m_sts m; m_view := v;
+              m_coup := match tc with Some c => c | None => m_coup m end |}.
+    exists (ORep v (b_cnt (apply_edit add_connection (cf_kind cf) (m_b m) e))
+                 (match tc with Some c => c | None => m_coup m end)).
     exists {| c_R := rel_edit (cf_kind cf) (cf_n cf) (c_R st) e; c_G := c_G st; c_F0 := c_F0 st |}.
-    exists next, len. split; [reflexivity|]. split.
-    + cbn [check_step]. now rewrite (report_ok_model _ _ _ Hb' HR').
+    exists next, len. split; [unfold step, step_with; now rewrite Erpc|]. split.
+    + cbn [check_step]. now rewrite Hv.
     + split; [|exact Hin]. destruct HS; [apply SyncPre | eapply SyncRun]; cbn [m_b m_sts c_R c_G c_F0]; eassumption.
   - (* a cycle *)
     cbn [inputs_ok] in Hin. destruct Hin as (Hblk & Hnext & Hp & Hw & Hrest).
@@ -1028,9 +1044,9 @@ Qed.
 
 Lemma run_from_sync cf ops : 0 <= cf_n cf -> 0 <= cf_nsamp cf ->
   forall m st next len, Sync cf m st next len -> inputs_ok cf next len ops ->
-    check_from cf st (combine ops (run_with add_connection keeps_fixed cf m ops)) = true /\
-    length (run_with add_connection keeps_fixed cf m ops) = length ops /\
-    ~ In OCrash (run_with add_connection keeps_fixed cf m ops).
+    check_from cf st (combine ops (run_with add_connection keeps_fixed true cf m ops)) = true /\
+    length (run_with add_connection keeps_fixed true cf m ops) = length ops /\
+    ~ In OCrash (run_with add_connection keeps_fixed true cf m ops).
 Proof.
   intros Hn0 Hns. induction ops as [|o rest IH]; intros m st next len HS Hin.
   - cbn. repeat split. tauto.
@@ -1168,7 +1184,7 @@ Lemma check_edit_shape cf st e ob st' :
   check_step cf st (OEdit e) ob = Some st' ->
   c_R st' = rel_edit (cf_kind cf) (cf_n cf) (c_R st) e /\ c_G st' = c_G st /\ c_F0 st' = c_F0 st.
 Proof.
-  cbn [check_step]. destruct ob as [rep cnt| |]; try discriminate.
+  cbn [check_step]. destruct ob as [rep cnt coup| |]; try discriminate.
   destruct (report_ok _ _ _); [|discriminate]. intros H. inversion H. now cbn.
 Qed.
 
@@ -1180,7 +1196,7 @@ Qed.
 Lemma reach cf pre rest : 0 <= cf_n cf -> 0 <= cf_nsamp cf ->
   forall m st next len, Sync cf m st next len -> inputs_ok cf next len (pre ++ rest) ->
   exists obs m' st' next' len',
-    run_with add_connection keeps_fixed cf m (pre ++ rest) = obs ++ run_with add_connection keeps_fixed cf m' rest /\
+    run_with add_connection keeps_fixed true cf m (pre ++ rest) = obs ++ run_with add_connection keeps_fixed true cf m' rest /\
     length obs = length pre /\
     Sync cf m' st' next' len' /\ inputs_ok cf next' len' rest /\
     c_R st' = fold_left (rel_edit (cf_kind cf) (cf_n cf)) (edits_of pre) (c_R st) /\
@@ -1293,14 +1309,14 @@ Definition w_blk : block :=
   {| blk_first := 0; blk_time := 0; blk_period := 1000;
      blk_chans := [(zrange 0 8, false); (zrange 100 8, false); (zrange 200 8, false)] |}.
 Definition w_ops : list op := [OEdit (EAdd [(7, [1])]); OCycle w_blk [[3]; []; []]].
-Definition w_old : list obs := run_with add_connection_old keeps_fixed w_cf (init_state 3) w_ops.
+Definition w_old : list obs := run_with add_connection_old keeps_fixed true w_cf (init_state 3) w_ops.
 
 Lemma out_of_range_source_pre_fix :
   inputs_ok w_cf None 0 w_ops /\
-  w_old = [ORep [(7, 1)] 1; OCrash] /\
+  w_old = [ORep [(7, 1)] 1 0; OCrash] /\
   rel_of_edits Generic 3 (edits_of w_ops) 7 1 = false /\
   C09_check w_cf (combine w_ops w_old) = false /\
-  run w_cf w_ops = [ORep [] 0; OSec [[]; []; []]].
+  run w_cf w_ops = [ORep [] 0 0; OSec [[]; []; []]].
 Proof.
   split; [unfold w_ops; solve_inputs_ok|]. split; [vm_compute; reflexivity|].
   split; [vm_compute; reflexivity|]. split; vm_compute; reflexivity.
@@ -1313,11 +1329,11 @@ Definition v_blk (first : Z) : block :=
   {| blk_first := first; blk_time := 0; blk_period := 1000;
      blk_chans := [(zrange first 30, false); (zrange (1000 + first) 30, false)] |}.
 Definition v_ops : list op := [OEdit (EAdd [(0, [1])]); OCycle (v_blk 0) [[15]; []]; OCycle (v_blk 30) [[26]; []]].
-Definition v_old : list obs := run_with add_connection (fun _ _ => [50; 10]) v_cf (init_state 2) v_ops.
+Definition v_old : list obs := run_with add_connection (fun _ _ => [50; 10]) true v_cf (init_state 2) v_ops.
 
 Lemma unequal_history_pre_fix :
   inputs_ok v_cf None 0 v_ops /\
-  nth 2 v_old (ORep [] 0) = OCrash /\
+  nth 2 v_old (ORep [] 0 0) = OCrash /\
   C09_check v_cf (combine v_ops v_old) = false /\
   map (fun o => match o with OSec r => map (map r_frame) r | _ => [] end) (run v_cf v_ops) = [[]; [[]; [15]]; [[]; [26]]].
 Proof.
@@ -1369,12 +1385,62 @@ Proof.
     apply eqb_prop in H3. rewrite <- H3. symmetry. apply pmem_In.
 Qed.
 
-Lemma check_edit_sound cf st e rep cnt st' :
-  check_step cf st (OEdit e) (ORep rep cnt) = Some st' ->
+Lemma check_edit_sound cf st e rep cnt coup st' :
+  check_step cf st (OEdit e) (ORep rep cnt coup) = Some st' ->
   c_R st' = rel_edit (cf_kind cf) (cf_n cf) (c_R st) e /\
   (forall s r, In (s, r) rep -> 0 <= s < cf_n cf /\ 0 <= r < cf_n cf) /\
   (forall s r, 0 <= s < cf_n cf -> 0 <= r < cf_n cf -> (In (s, r) rep <-> c_R st' s r = true)).
 Proof.
   cbn [check_step]. destruct (report_ok _ _ rep) eqn:E; [|discriminate]. intros H. inversion H. cbn [c_R].
   split; [reflexivity|]. now apply report_ok_sound.
+Qed.
+
+(* ====================================================================================== *)
+(* what a client is told after every request of any history                               *)
+(* ====================================================================================== *)
+
+Lemma edits_of_app a b : edits_of (a ++ b) = edits_of a ++ edits_of b.
+Proof. induction a as [|o a IH]; [reflexivity|]. destruct o; cbn [app edits_of]; now rewrite IH. Qed.
+
+Lemma every_request cf pre e :
+  0 <= cf_n cf -> 0 <= cf_nsamp cf -> inputs_ok cf None 0 (pre ++ [OEdit e]) ->
+  exists obs v cnt coup,
+    run cf (pre ++ [OEdit e]) = obs ++ [ORep v cnt coup] /\ length obs = length pre /\
+    let R := rel_of_edits (cf_kind cf) (cf_n cf) (edits_of (pre ++ [OEdit e])) in
+    (forall s r, In (s, r) v -> 0 <= s < cf_n cf /\ 0 <= r < cf_n cf) /\
+    (forall s r, 0 <= s < cf_n cf -> 0 <= r < cf_n cf -> (In (s, r) v <-> R s r = true)).
+Proof.
+  intros Hn0 Hns Hin. unfold run.
+  destruct (reach cf pre [OEdit e] Hn0 Hns _ _ None 0 (init_sync cf Hn0) Hin)
+    as (obs & m' & st' & next' & len' & Er & Hl & HS' & Hin' & HR & _ & _).
+  destruct (step_sync cf m' st' next' len' (OEdit e) [] Hn0 Hns HS' Hin')
+    as (m2 & ob & st2 & next2 & len2 & E1 & E2 & _ & _).
+  destruct ob as [v cnt coup| |]; try (cbn [check_step] in E2; discriminate).
+  exists obs, v, cnt, coup. split.
+  { rewrite Er. cbn [run_with]. fold (step cf m' (OEdit e)). now rewrite E1. }
+  split; [assumption|].
+  destruct (check_edit_sound _ _ _ _ _ _ _ E2) as (R2 & H1 & H2).
+  cbv zeta. unfold rel_of_edits. rewrite edits_of_app, fold_left_app. cbn [edits_of fold_left].
+  cbn [cst_init c_R] in HR. rewrite <- HR, <- R2. now split.
+Qed.
+
+(* --- before the fix of CoupleErrToFB / CoupleFBToErr: no GROUPTRIGGER update after a coupling change --- *)
+Definition u_cf : config := {| cf_kind := Lancero; cf_n := 2; cf_npre := 2; cf_nsamp := 4 |}.
+Definition u_blk : block :=
+  {| blk_first := 0; blk_time := 0; blk_period := 1000; blk_chans := [(zrange 0 8, true); (zrange 100 8, false)] |}.
+Definition u_ops : list op := [OEdit (ECouple 3); OCycle u_blk [[3]; []]].
+Definition u_old : list obs := run_with add_connection keeps_fixed false u_cf (init_state 2) u_ops.
+
+Lemma stale_view_pre_fix :
+  inputs_ok u_cf None 0 u_ops /\
+  (* the client still believes there is no connection, yet channel 1 gets a secondary from channel 0 *)
+  map (fun o => match o with ORep v _ _ => (v, []) | OSec r => ([], map (map r_frame) r) | OCrash => ([], []) end) u_old
+    = [([], []); ([], [[]; [3]])] /\
+  rel_of_edits Lancero 2 (edits_of u_ops) 0 1 = true /\
+  C09_check u_cf (combine u_ops u_old) = false /\
+  map (fun o => match o with ORep v _ _ => (v, []) | OSec r => ([], map (map r_frame) r) | OCrash => ([], []) end) (run u_cf u_ops)
+    = [([(0, 1)], []); ([], [[]; [3]])].
+Proof.
+  split; [unfold u_ops; solve_inputs_ok|]. split; [vm_compute; reflexivity|].
+  split; [vm_compute; reflexivity|]. split; vm_compute; reflexivity.
 Qed.
